@@ -40,6 +40,7 @@ KANI = dict(
         modpath=_modpath_c,
         modules=[
             ('src/router/scheduler.rs', 'scheduler.rs', 'verif_kani'),
+            ('src/segments/segment.rs', 'segment.rs', 'verif_kani'),
             ('src/protocol/v4/mod.rs', 'varint.rs', 'verif_kani_varint', dict(COPY='rumqttd::protocol::v4', LEN_LEN='len_len', CHECK_MAX='max as usize', SIZE_ERR_PAT='Error::PayloadSizeLimitExceeded(_)')),
             ('src/protocol/v5/mod.rs', 'varint.rs', 'verif_kani_varint', dict(COPY='rumqttd::protocol::v5', LEN_LEN='len_len', CHECK_MAX='max as usize', SIZE_ERR_PAT='Error::PayloadSizeLimitExceeded(_)')),
         ],
@@ -59,13 +60,14 @@ NATIVE = dict(
                           ('src/router/routing.rs', 'router_model.rs', 'verif_native'),
                           ('src/protocol/mod.rs', 'codec_spec.rs', 'verif_native_codec'),
                           ('src/link/remote.rs', 'admission.rs', 'verif_native'),
+                          ('src/segments/mod.rs', 'commitlog_model.rs', 'verif_native'),
                           ('src/protocol/v4/mod.rs', 'decoder_spec.rs', 'verif_native_dec', dict(COPY='rumqttd::protocol::v4::V4::read_mut', DECODE='V4.read_mut(stream, max)')),
                           ('src/protocol/v5/mod.rs', 'decoder_spec.rs', 'verif_native_dec', dict(COPY='rumqttd::protocol::v5::V5::read_mut', DECODE='V5.read_mut(stream, max)'))]),
 )
 # extra dev-dependencies written into the scratch copy's Cargo.toml (workspace members only: resolvable offline)
 NATIVE_DEV_DEPS = dict(rumqttd=['rumqttc = { path = "../rumqttc" }'])
 DIGEST_COPIES = {'topic-copies-agree': (3, ['C12'])}
-NATIVE_ENV = dict(quick=dict(VERIF_NMAX=3, VERIF_DEPTH=9, VERIF_TOPIC_LEN=4, VERIF_FILTER_LEN=4, VERIF_EVENT_DEPTH=3, VERIF_REQ_DEPTH=3, VERIF_DEC_ALL=2, VERIF_DEC_LEN=6, VERIF_CODEC_BIG=0), thorough=dict(VERIF_NMAX=4, VERIF_DEPTH=12, VERIF_TOPIC_LEN=5, VERIF_FILTER_LEN=4, VERIF_EVENT_DEPTH=4, VERIF_REQ_DEPTH=4, VERIF_DEC_ALL=3, VERIF_DEC_LEN=7, VERIF_CODEC_BIG=1))
+NATIVE_ENV = dict(quick=dict(VERIF_NMAX=3, VERIF_DEPTH=9, VERIF_TOPIC_LEN=4, VERIF_FILTER_LEN=4, VERIF_EVENT_DEPTH=3, VERIF_REQ_DEPTH=3, VERIF_DEC_ALL=2, VERIF_DEC_LEN=6, VERIF_CODEC_BIG=0, VERIF_LOG_DEPTH=7, VERIF_ADMIT_DEPTH=4), thorough=dict(VERIF_NMAX=4, VERIF_DEPTH=12, VERIF_TOPIC_LEN=5, VERIF_FILTER_LEN=4, VERIF_EVENT_DEPTH=4, VERIF_REQ_DEPTH=4, VERIF_DEC_ALL=3, VERIF_DEC_LEN=7, VERIF_CODEC_BIG=1, VERIF_LOG_DEPTH=9, VERIF_ADMIT_DEPTH=5))
 
 _CLIENT_STATE_TRUSTED = [
     'Kani 0.68 / CBMC 6.11 (bit-precise; machine arithmetic exact, overflow checks on)',
@@ -194,7 +196,7 @@ PROPS = dict(
     ),
     C13=dict(
         verus=['commitlog'],
-        kani=[],
+        kani=['rumqttd'], native=['rumqttd'],
         scope='CommitLog::{new,next_offset,append,apply_retention,readv} and Segment::{new,with_offset,next_offset,push,len,size} verified by Verus on the text extracted from /repo at run time; Segment::readv (iterator chain) assumed in Verus and bounded-checked by Kani',
         residual='DataLog::native_readv expiry filter (uses Instant) and Storage::size implementations are outside the unit',
         assumptions=[
